@@ -301,9 +301,27 @@ def addresses_absent(sim, req) -> bool:
         return False
 
 
-def req_event(path, leaf, executed, status, reason, pre, post, mask="na", action=False, exist=False, gone=False, declared=True) -> Dict[str, Any]:
+def documented_power_ok(sim, req) -> bool:
+    """The power conjunct of the documented precondition of a request to a node (action_masking.rst: every action needs
+    "Node is on", node-startup needs "Node is off"), evaluated on the node's state - not through any validator."""
+    try:
+        r = [str(x) for x in req]
+        if len(r) < 4 or r[0] != "network" or r[1] != "node":
+            return True
+        node = sim.network.get_node_by_hostname(r[2])
+        if node is None:
+            return True
+        st = node.operating_state.name
+        return st == "OFF" if r[3] == "startup" else st == "ON"
+    except Exception:  # noqa - no claim
+        return True
+
+
+def req_event(path, leaf, executed, status, reason, pre, post, mask="na", action=False, exist=False, gone=False, declared=True,
+              pwok=True) -> Dict[str, Any]:
     return {
         "gone": bool(gone),
+        "pwok": bool(pwok),
         "declared": bool(declared),
         "ev": "Req",
         "path": [{"present": bool(p["present"]), "guard": bool(p["guard"])} for p in path],
